@@ -12,10 +12,12 @@
 // Oracle: ref_format.h (independent parser + renderer written from the property text); exact byte comparison.
 // Cases whose reference outcome is an exception or the contract assertion are skipped (they belong to C10).
 #define VF_MAIN_TU
+#include "early.h"
 #include "verif.h"
 #include "alloc.h"
 #include "ref_format.h"
 #include "st_format.h"
+#include "early_battery.h"
 #include <climits>
 
 using vf::Ctx;
@@ -1096,6 +1098,7 @@ static void build(vf::Plan &plan, const vf::Opts &o)
                        Multi m = decode_multi(i, 4, LIT_CORE, 3);
                        return strf("ST::format(%s, %s)", vf::vis(multi_text(m)).c_str(), multi_args_text(m.nargs));
                    });
+    vf_early::add_stage(plan);
 }
 
 VF_MAIN("C11", build)
